@@ -131,8 +131,8 @@ MEQ = MAT + '{impl PartialEq<Matrix> for Matrix}::'
 veq = Fn(VEQ + 'eq', ret='r', level='L1', inherent=True, ensures=['C15.vec_eq.def:: r == eq_eps(self.v@, other.v@)'],
          loops={1: {'iter_name': 'it', 'invariant': ['it.iter.end == self.v@.len()', 'self.v@.len() == other.v@.len()',
                                                      'C15.vec_eq.prefix:: forall|q: int| 0 <= q < i ==> r_abs(rv(#[trigger] self.v@[q]) - rv(other.v@[q])) <= r_eps()']}},
-         hints=[('return false;\n                        }\n                    }', 'replace',
-                 'proof { assert(!eq_eps(self.v@, other.v@)) by { assert(r_abs(rv(self.v@[i as int]) - rv(other.v@[i as int])) > r_eps()); } } return false;\n }\n }')])
+         hints=[('c_epsilon() {', 'post',
+                 'proof { assert(!eq_eps(self.v@, other.v@)) by { assert(r_abs(rv(self.v@[i as int]) - rv(other.v@[i as int])) > r_eps()); } }')])
 SAME_SHAPE = 'self.nrows == other.nrows && self.ncols == other.ncols'
 SHAPE_HINT = ('if self.shape() != other.shape()', 'replace',
               'if ({ let a_ = self.shape(); let b_ = other.shape(); let t_ = a_ != b_; proof { if a_[0] == b_[0] && a_[1] == b_[1] { assert(a_ =~= b_); } '
